@@ -11,6 +11,7 @@ package labelpatch
 //@ requires 0 <= currentBatch && currentBatch < len(batches) && workloadReplicas >= 0
 //@ ensures planned: result == plannedAt(batches, workloadReplicas, currentBatch) && 0 <= result && result <= workloadReplicas
 //@ pure
+//@ replay batch_replicas
 
 // res[i] is the number of pods batch i adds under the plan (cumulative target of batch i minus that of batch i-1);
 // batches after the current one get 0.
